@@ -142,8 +142,8 @@ class Region:
 class Summary:
     """a method represented by its effect signature; `op` receives the contents of the attributes `reads` (in this order) and the
     parameters `params`, and yields the final content of every object the method creates or writes, in the order of `effects`"""
-    def __init__(self, op, reads, params=()):
-        self.op, self.reads, self.params = op, list(reads), list(params)
+    def __init__(self, op, reads, params=(), ret=None, opt_reads=()):
+        self.op, self.reads, self.params, self.ret, self.opt_reads = op, list(reads), list(params), ret, list(opt_reads)
 
 
 class ClassModel:
@@ -259,9 +259,8 @@ class ClassModel:
                     if a == x and b not in reach:
                         reach.add(b)
                         todo.append(b)
-            for y in reach:
-                if y.startswith('attr:') or y in params:
-                    obj.add(y)
+            if any(y.startswith('attr:') or y in params for y in reach):
+                obj |= reach                              # every name on the way denotes that object
         close()
         attrs = set(r[5:] for r in obj if r.startswith('attr:'))
         for mname in self.methods:
@@ -297,6 +296,8 @@ class ClassModel:
         base = vk[1] if isinstance(vk, tuple) and vk[0] == 'opt' else vk
         if is_tensor(base):
             base = 'B' if a in self.obj_attrs else 'T'
+        if isinstance(base, tuple) and base[0] == 'tuple' and a in self.obj_attrs:
+            base = ('tuple', tuple('B' if is_tensor(x) else x for x in base[1]))     # the tensors a kept tuple holds are objects
         cur = self.fields.get(a)
         if cur is None:
             self.fields[a] = base
@@ -312,6 +313,9 @@ class ClassModel:
             raise TranslateError('%s.%s is recursive' % (self.name, mname))
         if mname not in self.methods:
             raise TranslateError('%s has no method %s' % (self.name, mname))
+        if self.methods[mname].decorator_list:
+            raise TranslateError('%s.%s is decorated (%s): what the decorator keeps between calls is not part of the model'
+                                 % (self.name, mname, ', '.join(ast.unparse(d) for d in self.methods[mname].decorator_list)))
         self.active.append(mname)
         try:
             if mname in self.spec.get('summaries', {}):
@@ -652,6 +656,9 @@ class MethodTranslator:
         raise self.err('call %s' % ast.unparse(n), n)
 
     def op_call(self, spec, n, recv):
+        if isinstance(spec, tuple) and spec[0] == 'module':
+            # a sub-module (a learned metric): represented by its name; what it keeps inside is not part of the model
+            return V('"%s"' % spec[2], ('fn', spec[1]))
         if isinstance(spec, tuple) and spec[0] == 'loss_ctor':
             # torch.nn.MSELoss(reduction = ..): a loss module, represented by its reduction
             red = None
@@ -851,6 +858,8 @@ class MethodTranslator:
         ln = self.lean.get(name, name)
         if v.kind == 'T' and (name in self.objn or k == 'B' or k == ('opt', 'B')):
             v = self.alloc(v.term)                         # a new object bound to a name that is used as an object
+        if v.kind == 'B' and (k == 'T' or k == ('opt', 'T')) and name not in self.objn:
+            v = self.val(v)                                # a name that is only ever an operand takes the content
         if isinstance(k, tuple) and k[0] == 'opt':
             if isinstance(v.kind, tuple) and v.kind[0] == 'opt':
                 if v.kind != k:
@@ -885,6 +894,17 @@ class MethodTranslator:
             self.emit('log_ := log_ ++ ["%s"]' % a)
             return
         k = self.cm.attr_kind_for_store(a, v.kind)
+        if isinstance(k, tuple) and k[0] == 'tuple' and k != v.kind:
+            if not (isinstance(v.kind, tuple) and v.kind[0] == 'tuple' and len(v.kind[1]) == len(k[1])):
+                raise self.err('self.%s holds a %s, a %s is stored' % (a, k, v.kind), node)
+            p = self.fresh('p')
+            self.emit('let %s := %s' % (p, v.term))
+            m = len(k[1])
+            parts = []
+            for i, (have, want) in enumerate(zip(v.kind[1], k[1])):
+                proj = p + '.2' * i + ('.1' if i < m - 1 else '')
+                parts.append(self.coerce(V(proj, have), want, node, 'element %d of self.%s' % (i, a)))
+            v = V('(%s)' % ', '.join(parts), k)
         opt = isinstance(v.kind, tuple) and v.kind[0] == 'opt'
         base = v.kind[1] if opt else v.kind
         if opt:
@@ -1133,8 +1153,10 @@ class MethodTranslator:
                 for br in (s.body, s.orelse):
                     if br:
                         for k, v in self.dry_kinds(br).items():
-                            if k in new and (k not in kinds or (kinds[k] == 'T' and v == 'B')):
+                            if k in new and k not in kinds:
                                 kinds[k] = v
+                            elif k in new and {kinds[k], v} == {'T', 'B'}:
+                                kinds[k] = 'B' if k in self.objn else 'T'
                 for x in new:
                     if x not in kinds:
                         raise self.err('kind of local %s' % x, s)
@@ -1315,6 +1337,7 @@ class MethodTranslator:
 def effects_of(cm, fn):
     """(attributes read, ordered effects [('rebind' | 'inplace', attr)], methods of self called) of a method, flattened in source order"""
     reads, effects, calls = [], [], []
+    made = set()                  # attributes rebound (unconditionally) so far: reading them reads an object this call created
 
     class Vis(ast.NodeVisitor):
         def __init__(self):
@@ -1326,6 +1349,8 @@ def effects_of(cm, fn):
                 a = self_attr(t)
                 if a is not None:
                     effects.append(('rebind', a, self.depth))
+                    if self.depth == 0:
+                        made.add(a)
                 else:
                     b = subscript_base(t)
                     a = self_attr(b)
@@ -1354,7 +1379,7 @@ def effects_of(cm, fn):
         def visit_Attribute(self, n):
             a = self_attr(n)
             if a is not None and isinstance(n.ctx, ast.Load):
-                if a not in reads:
+                if a not in reads and a not in made:
                     reads.append(a)
             else:
                 self.generic_visit(n)
@@ -1397,15 +1422,19 @@ def summarise(cm, mname, s):
     if calls:
         raise TranslateError('%s.%s (summarised) calls self.%s' % (cm.name, mname, calls))
     reads = [a for a in reads if a != 'device']
-    if sorted(reads) != sorted(s.reads):
-        raise TranslateError('%s.%s reads the attributes %s, its summary `%s` receives %s' % (cm.name, mname, sorted(reads), s.op, sorted(s.reads)))
+    if sorted(reads) != sorted(s.reads + s.opt_reads):
+        raise TranslateError('%s.%s reads the attributes %s, its summary `%s` receives %s' % (cm.name, mname, sorted(reads), s.op, sorted(s.reads + s.opt_reads)))
     params = cm.param_kinds(mname)
     used = [p for p, _, _ in params if any(isinstance(n, ast.Name) and n.id == p and isinstance(n.ctx, ast.Load) for n in ast.walk(fn))]
     if used != list(s.params):
         raise TranslateError('%s.%s uses its parameters %s, its summary `%s` receives %s' % (cm.name, mname, used, s.op, list(s.params)))
     for n in ast.walk(fn):
-        if isinstance(n, ast.Return) and n.value is not None:
+        if isinstance(n, ast.Return) and n.value is not None and s.ret is None:
             raise TranslateError('%s.%s (summarised) returns a value' % (cm.name, mname))
+        if isinstance(n, ast.Return) and n.value is not None:
+            for e in (n.value.elts if isinstance(n.value, ast.Tuple) else [n.value]):
+                if alias_root(e) is not None and alias_root(e).startswith('attr:'):
+                    raise TranslateError('%s.%s (summarised) returns the attribute %s itself' % (cm.name, mname, alias_root(e)[5:]))
         if isinstance(n, ast.Assign):
             for t in n.targets:
                 a = self_attr(t)
@@ -1440,10 +1469,16 @@ def summarise(cm, mname, s):
             args.append('d_%s' % a)
         else:
             args.append('v_%s' % a)
+    for a in s.opt_reads:
+        if cm.fields.get(a) is None:
+            raise TranslateError('%s.%s reads self.%s before the kind of what it holds is known' % (cm.name, mname, a))
+        args.append('self_.%s' % a)
     args += list(s.params)
     lines.append('  let r_ := E.%s %s' % (s.op, ' '.join(args)))
-    n = len(outs)
-    for i, (kind, a) in enumerate(outs):
+    nret = 1 if s.ret is not None else 0
+    n = len(outs) + nret
+    for i0, (kind, a) in enumerate(outs):
+        i = i0 + nret
         proj = 'r_' if n == 1 else 'r_' + '.2' * i + ('.1' if i < n - 1 else '')
         if kind == 'old':
             lines.append('  heap_ := heap_.set v_%s %s' % (a, proj))
@@ -1457,31 +1492,36 @@ def summarise(cm, mname, s):
             else:
                 lines.append('  self_ := { self_ with %s := some %s }' % (a, proj))
             lines.append('  log_ := log_ ++ ["%s"]' % a)
-    lines.append('  return (self_, heap_, (), log_)')
+    lines.append('  return (self_, heap_, %s, log_)' % ('()' if s.ret is None else ('r_' if n == 1 else 'r_.1')))
     want_ty = s.op
     if want_ty not in cm.ops:
         raise TranslateError('numeric %s is not declared' % s.op)
-    res_ty = ' × '.join(['T'] * n) if n else 'Unit'
+    res_ty = ' × '.join(([lty_atom(s.ret)] if s.ret is not None else []) + ['T'] * len(outs)) if n else 'Unit'
     arg_tys = []
     for a in s.reads:
         k = cm.fields[a]
         arg_tys.append('T' if k == 'B' else lty_atom(k))
+    for a in s.opt_reads:
+        arg_tys.append('Option %s' % lty_atom(cm.fields[a]))
     kinds = {p: k for p, k, _ in params}
     arg_tys += [lty_atom(kinds[p]) for p in s.params]
-    declared = cm.ops[s.op][1].replace(' ', '')
-    computed = ' → '.join(arg_tys + [res_ty if n <= 1 else '(%s)' % res_ty]).replace(' ', '')
-    if declared != computed and declared != ' → '.join(arg_tys + [res_ty]).replace(' ', ''):
-        raise TranslateError('%s.%s: its effect signature gives `%s` the type %s, declared is %s' % (cm.name, mname, s.op, computed, declared))
+    def norm(t):
+        return t.replace(' ', '').replace('(', '').replace(')', '')
+    declared = norm(cm.ops[s.op][1])
+    computed = norm(' → '.join(arg_tys + [res_ty]))
+    if declared != computed:
+        raise TranslateError('%s.%s: its effect signature gives `%s` the type %s, declared is %s'
+                             % (cm.name, mname, s.op, ' → '.join(arg_tys + [res_ty]), cm.ops[s.op][1]))
     name = cm.fn_name(mname)
-    head = 'def %s (E : %s T R) (self_ : %s T R) (heap_ : Heap T)%s : Option (%s T R × Heap T × Unit × List String) := do' % (
-        name, cm.opsname, cm.S, ''.join(' (%s : %s)' % (p, lty(k)) for p, k, _ in params), cm.S)
-    doc = ('/-- `%s.%s` (%s) SUMMARISED by its effect signature, recomputed from the source: it reads the attributes %s and its parameters %s; '
+    head = 'def %s (E : %s T R) (self_ : %s T R) (heap_ : Heap T)%s : Option (%s T R × Heap T × %s × List String) := do' % (
+        name, cm.opsname, cm.S, ''.join(' (%s : %s)' % (p, lty(k)) for p, k, _ in params), cm.S, 'Unit' if s.ret is None else lty_atom(s.ret))
+    doc = ('/-- `%s.%s` (%s) SUMMARISED by its effect signature, recomputed from the source: it reads the attributes %s and its parameters %s%s; '
            'objects it leaves: %s (`old a` = written in place into the object `self.a` held on entry, `new a` = a new object that `self.a` holds on exit); '
            'the uninterpreted `E.%s` stands for their contents -/'
-           % (cm.name, mname, cm.spec['file'], s.reads, list(s.params), ['%s %s' % o for o in outs], s.op))
+           % (cm.name, mname, cm.spec['file'], s.reads + s.opt_reads, list(s.params), ' and returns a value computed from them' if s.ret is not None else '', ['%s %s' % o for o in outs], s.op))
     extra = ['def %sReads : List String := [%s]' % (name[:-1], ', '.join('"%s"' % a for a in s.reads)),
              'def %sEffects : List (String × String) := [%s]' % (name[:-1], ', '.join('("%s", "%s")' % o for o in outs))]
-    return MethodResult(params, 'Unit', '\n'.join(extra + [doc, head] + lines))
+    return MethodResult(params, 'Unit' if s.ret is None else s.ret, '\n'.join(extra + [doc, head] + lines))
 
 
 # ------------------------------------------------------------------------------------------------------------------ the file
@@ -1524,7 +1564,7 @@ GENERIC_OPS = [
     ('lit', 'String → R', 'a float literal of the source, by its text'),
     ('scalar', 'R → T', 'a Python float used as a tensor operand'), ('int', 'Int → T', 'a Python int used as a tensor operand'),
     ('ofBool', 'Bool → T', 'a Python bool stored into a tensor'), ('truthy', 'T → Bool', 'the truth value of a tensor element (`if x:` / `not x`)'),
-    ('rofInt', 'Int → R', 'a Python int in float arithmetic'),
+    ('rofInt', 'Int → R', 'a Python int in float arithmetic'), ('rtruthy', 'R → Bool', 'the truth value of a Python float'),
     ('radd', 'R → R → R', 'float `a + b`'), ('rsub', 'R → R → R', 'float `a - b`'), ('rmul', 'R → R → R', 'float `a * b`'),
     ('rdiv', 'R → R → R', 'float `a / b`'), ('rneg', 'R → R', 'float `-a`'),
     ('add', 'T → T → T', '`a + b`'), ('sub', 'T → T → T', '`a - b`'), ('mul', 'T → T → T', '`a * b`'), ('div', 'T → T → T', '`a / b`'),
